@@ -44,10 +44,15 @@ def radius_spellings(km):
     """The same radius written in every supported way (thresholds sit mid-gap, so rounding in the unit conversion is harmless)."""
     out = [km, float(km), "%rkm" % km, "%r" % km, " %r " % km]            # (a number in a string, no unit: kilometres)
     out += ["%r %s" % (km / f, u) for u, f in sorted(UNIT_KM.items())]
+    # whole kilometres as numpy integer scalars (what `arr.max()` of an integer table hands over): mid-gap thresholds lie
+    # hundreds of km from either class, so rounding to a whole kilometre selects the same pairs; the extreme radii (exactly
+    # half the circumference; beyond the diameter) are not rounded
+    whole = 200 < km < 19000
+    out += [np.int16(round(km)) if whole else km, np.uint16(round(km)) if whole else float(km), np.int32(round(km)) if whole else km]
     return out
 
 
-N_SPELLINGS = 5 + len(UNIT_KM)
+N_SPELLINGS = 8 + len(UNIT_KM)
 
 
 def run_query(B, Q, k, emb_name, metric, tree, leaf, perm, spelling, shuffle=True, return_distance=True):
